@@ -180,10 +180,15 @@ main(int argc, char** argv)
       if (diff >= 0 && (size_t)diff < lb) b[diff] ^= 1;
       write_file("A", a, la);
       if (link_same) { if (link("A", "B")) {} } else write_file("B", b, lb);
-      if (!strcmp(tok[5], "fail")) va.fail_from = va.n_requests;
+      // fail = every page request refused; fail0 / fail1 = only the first / second one
+      #define ARM_FAULT() do { if (!strcmp(tok[5], "fail")) va.fail_from = va.n_requests; else if (!strcmp(tok[5], "fail0")) va.fail_at = va.n_requests; \
+                               else if (!strcmp(tok[5], "fail1")) va.fail_at = va.n_requests + 1; } while (0)
+      ARM_FAULT();
       const bool r1 = zix_file_equals(&va.base, "A", "B");
+      va.fail_from = -1; va.fail_at = -1;
+      ARM_FAULT();
       const bool r2 = zix_file_equals(&va.base, "B", "A");
-      va.fail_from = -1;
+      va.fail_from = -1; va.fail_at = -1;
       const bool same = link_same || (la == lb && !memcmp(a, b, la));
       printf("eq=%d sym=%d", r1, r2);
       if (r1 != same || r2 != same) printf(" SPEC-FAIL:equals-iff-identical-bytes");
